@@ -69,7 +69,7 @@ def modelStep (tbl : List (String × List String)) (ts : List String) : Option S
     match parseScenario? b h, lookup tbl k with
     | some sc, some ir =>
       match parseBody ir with
-      | some body => some (showTrace (runProg sc body))
+      | some body => some (showTrace (observable (runProg sc body)))
       | none => some "unparsable-ir"
     | none, _ => some "bad-op"
     | _, none => some "gone"
@@ -93,7 +93,7 @@ def judgeTrace (k : String) (sc : Scenario) (res : String) : String :=
     else
       -- a recorded finding explains exactly the trace its recorded body predicts
       match knownProgs.find? (·.key = k) with
-      | some kp => if runProg sc kp.body = tr then "known:" ++ k else "bad observed-trace-violates-contract"
+      | some kp => if observable (runProg sc kp.body) = observable tr then "known:" ++ k else "bad observed-trace-violates-contract"
       | none => "bad observed-trace-violates-contract"
 
 def oracleStep (ts : List String) (line : String) : Option String :=
